@@ -14,7 +14,9 @@ RULE = (
     "selector value valid for its selector type, every enumeration member / range / mask, 117 command codes x 4 tables (468 area "
     "types): (a) coherence predicates on the live tables, (b) item-by-item comparison of the re-extracted live tables with "
     "layout/snapshot.json, (c) one hypothesis-generated encoding per type / selector value / command code decoded against the "
-    "snapshot-dictated events. An evaluation is one compared leaf item or one coherence obligation or one decode; every item is non-trivial."
+    "snapshot-dictated events, (d) every selector value a union maps but its parent's selector type does not allow, decoded in warn "
+    "mode (the member that follows is the union's), (e) every synthesized encrypted parameter layout used, then all others, then "
+    "again: the same class object. An evaluation is one compared leaf item or one coherence obligation or one decode; every item is non-trivial."
 )
 ASSUMPTIONS = ["layout/snapshot.json is the pinned layout (extracted once from the pinned tree after the 'fix:' commits for FirmwareRead and TPMA_LOCALITY)"]
 
@@ -198,10 +200,88 @@ def tables_check(ctx, again=False):
         )
 
 
+def foreign_selector_points(L):
+    """(structure, selector field, value): selector values a union maps explicitly but the parent's selector type does not
+    allow - the union's mapping is the union's (pinned), whatever the parent thinks of the value."""
+    out = []
+    for sname in sorted(L.snap["structs"]):
+        s = L.snap["structs"][sname]
+        for uf, sf in sorted(s.get("selectors", {}).items()):
+            stype = L.field_type(sname, sf)
+            if not L.is_prim(stype):
+                continue
+            lo, hi = L.limits(stype)
+            for k, m in L.struct(L.field_type(sname, uf))["selection"]:
+                if lo <= k <= hi and not L.contains(stype, k):
+                    out.append((sname, sf, k))
+    return sorted(set(out))
+
+
+def check_foreign_selector(ctx, L, case):
+    """Warn mode goes on behind an out-of-range selector: the member that follows is the one the union's own mapping names."""
+    from ..refdec import ref_decode
+
+    O.reset_state()
+    ref = ref_decode(L, case.type, case.data, check_values=False)
+    if ref.events != case.events:
+        from ..runner import HarnessError
+
+        raise HarnessError(f"generator and lenient reference disagree on {case.type} {case.data.hex()}")
+    w = O.run_decode(case.type, case.data, strict=False)
+    got = [e for e in w.events if e[0] != "!warning"]
+    ctx.case(("foreign-selector", case.type, case.data), True, sample={"type": case.type, "hex": case.data.hex()[:80], "selector_outside_parent_set": True})
+    ctx.count("foreign-selector-decodes")
+    payload = {"type": case.type, "data": case.data, "cc": None, "enc": False, "foreign_selector": True}
+    if w.outcome["kind"] != "ok" or got != case.events:
+        d = next((i for i, (a, b) in enumerate(zip(got, case.events)) if a != b), min(len(got), len(case.events)))
+        ctx.problem(
+            "C20:selector-mapping:warn-mode",
+            f"warn-mode decode of {case.type} {case.data.hex()} ends with {w.outcome['kind']}; event {d} is {got[d] if d < len(got) else None}, the pinned selector mapping dictates {case.events[d] if d < len(case.events) else None}",
+            payload,
+        )
+
+
+def layout_stability(ctx, L):
+    """One parameter layout per command code, also for the synthesized encrypted variants: the declared type of the
+    `.parameters` event of a message is the same class object before and after every other variant was used."""
+    from .. import history
+
+    msgs = history.churn_messages()
+
+    def params_type(m):
+        tname, data, cc, enc = m
+        o = O.run_decode(tname, data, command_code=cc, enc=enc, strict=False)
+        for ev in o.raw:
+            if getattr(ev, "path", None) is not None and str(ev.path).endswith(".parameters") and ev.value is ...:
+                return ev.type
+        return None
+
+    first = [params_type(m) for m in msgs]
+    for rnd in range(2):
+        order = range(len(msgs)) if rnd == 0 else range(len(msgs) - 1, -1, -1)
+        for i in order:
+            t = params_type(msgs[i])
+            ctx.case(("layout-stability", rnd, i), True)
+            if t is not first[i]:
+                ctx.problem(
+                    "C20:layout-not-unique",
+                    f"{msgs[i][0]} with command code {msgs[i][2] if msgs[i][2] is not None else int.from_bytes(msgs[i][1][6:10], 'big'):#x}: the encrypted parameter layout is {t!r} (id {id(t):#x}) now, it was {first[i]!r} (id {id(first[i]):#x}) before {len(msgs)} other layouts were used - not one layout per command code",
+                    {"layout_stability": True},
+                )
+                return
+    ctx.count("layout-stability-messages", len(msgs))
+
+
 def run_shard(ctx):
     L = layout()
     if ctx.shard == 0:
         ctx.run_plain(lambda: tables_check(ctx), "tables")
+    if ctx.shard == 1:
+        ctx.run_plain(lambda: layout_stability(ctx, L), "layout-stability")
+    from .. import gen
+
+    for sname, sf, v in ctx.mine(foreign_selector_points(L)):
+        ctx.run_given(gen.structures(L, sname, overrides={sf: v}), lambda case: check_foreign_selector(ctx, L, case), 1, name=f"foreign:{sname}:{sf}:{v}")
     # (c) behavioural pass: snapshot-dictated events for one encoding per type / arm / command code shape
     wellformed_campaign(ctx, L, lambda case: c01.check_case(ctx, L, case), 1, 160, big=False)
     if ctx.shard == 0:
@@ -214,6 +294,16 @@ def finalize(merged):
 
 
 def replay(ctx, payload):
+    if payload.get("layout_stability"):
+        return layout_stability(ctx, layout())
+    if payload.get("foreign_selector"):
+        from .common import ReplayCase
+        from ..refdec import ref_decode
+
+        L = layout()
+        c = ReplayCase(L, payload)
+        c.events = ref_decode(L, c.type, c.data, check_values=False).events
+        return check_foreign_selector(ctx, L, c)
     if "type" in payload:
         c01.replay(ctx, payload)
     else:
